@@ -83,14 +83,24 @@ def read_csv(path):
     return rows[0], rows[1:]
 
 
+class ToolRaised(Exception):
+    """a tool refused a trace it has to copy (both tools only ever touch the arrival column)"""
+
+
 def call_snap(src, dst, tps):
     with quiet():
-        T.snap_command(src, dst, tps, force=True)
+        try:
+            T.snap_command(src, dst, tps, force=True)
+        except Exception as e:   # noqa
+            raise ToolRaised(f'tools snap raised {type(e).__name__}: {e}'[:200])
 
 
 def call_jitter(src, dst, delta, seed):
     with quiet():
-        T.jitter_command(src, dst, delta, seed=seed, force=True)
+        try:
+            T.jitter_command(src, dst, delta, seed=seed, force=True)
+        except Exception as e:   # noqa
+            raise ToolRaised(f'tools jitter raised {type(e).__name__}: {e}'[:200])
 
 
 def dec(text):
@@ -148,7 +158,7 @@ def other_cells(rng, first):
     return [rng.choice(['QUERY', 'INTERACTIVE', 'BATCH_PIPELINE']) if first else '',
             'op' + str(rng.randint(0, 99)), rng.choice(['', 'op1', 'op1;op2']),
             repr(rng.choice([0.5, 1.0, 2.25, 0.1, 3.0])), rng.choice(['const', 'linear3', 'sqrt', 'exp']),
-            rng.choice(['', '1.5', '4', '0.25']), rng.choice(['1', '20.5', '0.0', '7, 5'])]
+            rng.choice(['', '1.5', '4', '0.25', '0', '0.0']), rng.choice(['1', '20.5', '0.0', '2', '7, 5'])]
 
 
 def gen_file(rng, kind):
@@ -258,6 +268,9 @@ def snap_case(recipe):
         call_snap(b, c, tps)
         header, out = read_csv(b)
         _, out2 = read_csv(c)
+    except ToolRaised as e:
+        return [], [hit(f'{e} on a trace whose arrival cells are all numbers (the other columns are only copied)',
+                        'tool-raised', recipe)]
     finally:
         shutil.rmtree(tmp, ignore_errors=True)
     hits = snap_monitor(tps, rows, out, out2, header, recipe)
@@ -351,6 +364,9 @@ def jitter_case(recipe):
                       ([] if seed is None else ['-s', str(seed)])
                 pr = subprocess.run(cmd, env=env, capture_output=True, text=True, timeout=300)
                 xproc.append((hs, pr.returncode, open(e, 'rb').read() if os.path.exists(e) else None, pr.stderr[-200:]))
+    except ToolRaised as e:
+        return [], [hit(f'{e} on a trace whose arrival cells are all numbers (the other columns are only copied)',
+                        'tool-raised', recipe)], []
     finally:
         shutil.rmtree(tmp, ignore_errors=True)
     eff = 42 if seed is None else seed
@@ -547,6 +563,9 @@ def run(ctx):
         cases += cs
         hits += h
         st['snap_files'] += 1
+        if not cs:
+            st['snap_tool_raised'] += 1
+            continue
         st['snap_cells'] += cs[0]['obs'][0]
         st[f'snap_tps_{rec["tps"]}'] += 1
         for c in rec['classes']:
@@ -571,6 +590,9 @@ def run(ctx):
         cases += cs
         hits += h
         st['jitter_files'] += 1
+        if not cs:
+            st['jitter_tool_raised'] += 1
+            continue
         st['jitter_pipelines'] += cs[0]['inp'][0]
         st['jitter_delta_zero'] += rec['delta'] == 0
         st['jitter_default_seed'] += rec['seed'] is None
